@@ -179,6 +179,10 @@ def g_num(rng, d, extra=()):
         return ["var", rng.choice(pool)] if rng.random() < 0.8 else ["num", rng.choice([2, 0.5, 3])]
     if r < 0.5:
         return [rng.choice(["+", "*"]), g_num(rng, d - 1, extra), g_num(rng, d - 1, extra)]
+    if r < 0.53:
+        # an index tuple (a matrix handed in by the user): every index is read
+        return ["msub", ["var", "mat"], g_int(rng, d - 1, extra),
+                ["var", "only_in_sub2"] if rng.random() < 0.4 else g_int(rng, d - 1, extra)]
     if r < 0.6:
         return ["sub", ["var", rng.choice(ARRS[:2])], g_int(rng, d - 1, extra)]
     if r < 0.7:
@@ -210,7 +214,8 @@ def single_state(rng):
             "<p>k": 1.5, "<t>": 0.5, "<dt>": 0.25, "n": rng.choice([1, 2]), "j0": rng.choice([0, 1]),
             "arr": np.array([1.0, 2.0, 3.0, 4.0]), "<state>v": np.array([0.5, 0.25, 4.0, 8.0]),
             "idx": np.array([1, 0, 2, 1]), "<cond>g": rng.random() < 0.7, "<cond>h": rng.random() < 0.7,
-            "only_in_bound": 2, "only_in_sub": 1, "only_in_guard": True, "only_in_time": 0.75,
+            "only_in_bound": 2, "only_in_sub": 1, "only_in_sub2": rng.choice([0, 2]), "only_in_guard": True,
+            "only_in_time": 0.75, "mat": np.arange(9.0).reshape(3, 3) + 0.5,
             "scale": rng.choice([0.5, 2.0])}
 
 
@@ -224,7 +229,7 @@ def gen_single(rng):
     # statements every occurrence of a few chosen variables is read through '.real'
     chosen = set()
     if rng.random() < 0.25:
-        chosen = set(rng.sample(["x", "y", "<state>s", "<p>k", "n", "j0", "only_in_bound", "only_in_sub",
+        chosen = set(rng.sample(["x", "y", "<state>s", "<p>k", "n", "j0", "only_in_bound", "only_in_sub", "only_in_sub2",
                                  "only_in_guard", "only_in_time", "<cond>g"], rng.choice([1, 2, 4])))
     _sm = SubstitutionMapper(lambda v: Lookup(v, "real") if isinstance(v, Variable) and v.name in chosen else None)
 
